@@ -112,3 +112,43 @@ fn c06_signal_stream_drop_paths() {
     kani::cover!(which == 2 && take_back);
     std::mem::forget(sq);
 }
+
+//@ prop: C07
+//@ tier: quick
+//@ what: Signals::to_direct_descriptor's result mapping: the new direct descriptor is owned by the returned Signals (kind Direct, that index), and the ORIGINAL regular signal descriptor it replaces is closed exactly once (one CLOSE for exactly that fd, or close(2) when the queue is full) -- it is neither leaked nor closed twice
+//@ bound: any regular fd number for the original, any index for the direct one; queue with room or full
+//@ encodes: <process::Signals as io_uring::fd::DirectFdMapper>::map; <AsyncFd as Drop>::drop
+//@ stubs: crate::lock -> try_lock model; <core::io::CustomOwner as Drop>::drop -> no-op
+#[kani::proof]
+#[kani::unwind(3)]
+#[kani::stub(crate::lock, crate::verif_stubs::lock_model)]
+#[kani::stub(<core::io::CustomOwner as core::ops::Drop>::drop, crate::verif_stubs::custom_owner_drop_noop)]
+fn c07_signals_to_direct_mapping() {
+    use crate::io_uring::fd::DirectFdMapper;
+    let full: bool = kani::any();
+    k::install(k::base_table());
+    k::sq_set(0, if full { 2 } else { 0 });
+    let sq = SubmissionQueue(crate::io_uring::sq::verif_c04::submissions_in_place(2, false, false));
+    let old: i32 = kani::any();
+    kani::assume(old >= 3 && old < i32::MAX);
+    let idx: i32 = kani::any();
+    kani::assume(idx >= 0 && idx < i32::MAX);
+    let signals = super::Signals { fd: unsafe { AsyncFd::from_raw(old, Kind::File, sq.clone()) }, signals: super::SignalSet(unsafe { std::mem::zeroed() }) };
+    let dfd = unsafe { AsyncFd::from_raw(idx, Kind::Direct, sq.clone()) };
+    unsafe { k::CLOSES.v = 0 };
+    let tail0 = k::sq_tail();
+    let mapped = signals.map(dfd);
+    assert!(mapped.fd.fd() == idx && matches!(mapped.fd.kind(), Kind::Direct), "the Signals now owns the direct descriptor");
+    let queued = k::sq_tail().wrapping_sub(tail0);
+    if full {
+        assert!(queued == 0 && unsafe { k::CLOSES.v == 1 && k::LAST_CLOSED.v == old }, "original descriptor closed synchronously, once");
+    } else {
+        assert!(queued == 1 && unsafe { k::CLOSES.v } == 0, "exactly one close request");
+        let e = k::sqe_view(k::sqe(0));
+        assert!(e.opcode == 19 /* IORING_OP_CLOSE */ && e.fd == old && e.file_index == 0, "for exactly the original regular descriptor");
+    }
+    kani::cover!(full);
+    kani::cover!(!full && old == 7);
+    std::mem::forget(mapped);
+    std::mem::forget(sq);
+}
